@@ -29,6 +29,13 @@ Proof.
   rewrite Forall_forall in H1. apply Forall_app; split; auto.
 Qed.
 
+Lemma stream_in_lidx : forall rid i f s, (forall x, Q (Ev rid i x)) -> stream_in s -> stream_in (lidx rid i f s).
+Proof.
+  intros rid i f s HQ [H1 H2]; split; simpl; auto. generalize 0 as pos.
+  induction (cells s) as [|[evs x] cs IH]; intros pos; simpl; auto.
+  inversion H1; subst. constructor; auto. simpl in *. apply Forall_app; split; auto.
+Qed.
+
 Lemma stream_in_lfilter_go : forall rid i p cs pend tr,
   (forall x, Q (Ev rid i x)) -> Forall Q pend -> Forall (fun c => Forall Q (fst c)) cs -> Forall Q tr ->
   stream_in (lfilter_go rid i p pend cs tr).
@@ -98,7 +105,9 @@ Proof.
   - assert (HQ' : forall rid' st' x, In (rid', st') up -> Q (Ev rid' i x)) by (intros; eapply HQ; right; eauto).
     assert (HQr : forall x, Q (Ev rid i x)) by (intros; eapply HQ; left; eauto).
     specialize (IH i src m HQ').
-    destruct st as [f|p|g|h|].
+    destruct st as [f|p|g|fi|h|].
+    4: { destruct (compute now up i src m) as [[s m1] ev]; simpl in *. destruct IH; split; auto.
+         apply stream_in_lidx; auto. }
     4: { destruct (compute now up i src m) as [[s m1] ev]; simpl in *. destruct IH; split; auto.
          apply stream_in_lpart; auto. }
     + destruct (compute now up i src m) as [[s m1] ev]; simpl in *. destruct IH; split; auto.
@@ -190,7 +199,7 @@ Lemma compute_keeps : forall now rn i' src m k,
 Proof.
   induction rn as [|[rid st] up IH]; intros i' src m k Hk Hc; simpl; auto.
   specialize (IH i' src m k Hk Hc).
-  destruct st as [f|p|g|h|];
+  destruct st as [f|p|g|fi|h|];
     try (destruct (compute now up i' src m) as [[s m1] ev]; simpl in *; exact IH).
   destruct (m_get (rid, i') m) as [data|]; simpl; auto.
   destruct (compute now up i' src m) as [[s m1] ev]; simpl in *. destruct IH as [I1 I2]. split.
@@ -205,7 +214,8 @@ Lemma compute_new_keys : forall now rn i' src m e,
 Proof.
   induction rn as [|[rid st] up IH]; intros i' src m e H; simpl in *; auto.
   specialize (IH i' src m e).
-  destruct st as [f|p|g|h|].
+  destruct st as [f|p|g|fi|h|].
+  4: { destruct (compute now up i' src m) as [[s m1] ev]; simpl in *; auto. }
   4: { destruct (compute now up i' src m) as [[s m1] ev]; simpl in *; auto. }
   - destruct (compute now up i' src m) as [[s m1] ev]; simpl in *; auto.
   - destruct (compute now up i' src m) as [[s m1] ev]; simpl in *; auto.
@@ -233,7 +243,9 @@ Proof.
     assert (HQ' : forall r (st' : stage A) x, In (r, st') down -> Q (Ev r i x)) by (intros; eapply HQ; right; eauto).
     assert (HQr : forall x, Q (Ev rid' i x)) by (intros; eapply HQ; left; eauto).
     specialize (IH rid up i src m Q Hk Hn' HQ'). simpl in IH.
-    destruct st as [f|p|g|h|].
+    destruct st as [f|p|g|fi|h|].
+    4: { destruct (compute now (down ++ (rid, SPersist) :: up) i src m) as [[s m1] ev]; simpl in *.
+         destruct IH as [I1 [I2 [I3 I4]]]. split; [apply stream_in_lidx; auto | auto]. }
     4: { destruct (compute now (down ++ (rid, SPersist) :: up) i src m) as [[s m1] ev]; simpl in *.
          destruct IH as [I1 [I2 [I3 I4]]]. split; [apply stream_in_lpart; auto | auto]. }
     + destruct (compute now (down ++ (rid, SPersist) :: up) i src m) as [[s m1] ev]; simpl in *.
